@@ -9,6 +9,31 @@ import numpy as np
 from .. import scripted
 
 
+def stop_problems(o) -> list:
+    """the result of one real run against the rule, decided from the result alone: cycles <= max_cycles, one generation and one rate per cycle, each rate
+    |1 - mean fitness| of its generation, and the run ended at the FIRST cycle at which a configured criterion held (budget, fitness_error, early stopping)"""
+    j = o["job"]; mc = j["cfg"]["max_cycles"]; fe = j["cfg"].get("fitness_error"); es = j["cfg"].get("early_stopping")
+    K = len(o["rates"])
+    probs = []
+    if not (1 <= K <= mc): probs.append(f"{K} cycles with max_cycles={mc}")
+    if len(o["evolution"]) != K + 1: probs.append(f"{len(o['evolution'])} generations for {K} rates")
+    for k in range(1, min(K, len(o["evolution"]) - 1) + 1):
+        fits = [a[2] for a in o["evolution"][k]]
+        want = abs(1 - float(np.average(fits)))
+        if o["rates"][k - 1] != want and not (math.isnan(want) and math.isnan(o["rates"][k - 1])):
+            probs.append(f"rate {k} = {o['rates'][k-1]!r} but |1 - mean fitness| = {want!r}")
+    diffs = [o["rates"][k] - (o["rates"][k - 1] if k else 0) for k in range(K)]
+    def early(k):          # after cycle k (1-based): the last `patience` changes are all decreases smaller than min_delta
+        if not es: return False
+        pat = es.get("patience", 1) or 1; md = es.get("min_delta", 1e-4)
+        if md is None: md = 1e-4
+        return all(d < 0 and abs(d) < md for d in diffs[:k][-pat:])
+    crit = [(k >= mc) or (fe is not None and o["rates"][k - 1] <= fe) or early(k) for k in range(1, K + 1)]
+    if K and (not crit[-1] or any(crit[:-1])):
+        probs.append(f"stop rule: criteria per cycle {crit} (rates {o['rates'][:8]})")
+    return probs
+
+
 def real_optimizer_pass(ctx, n_opt: int):
     """observationally: for real optimizers the result has the right shape and rates, and stops by the rule"""
     from .. import search
@@ -23,26 +48,20 @@ def real_optimizer_pass(ctx, n_opt: int):
         # the same rule on a REUSED instance (the per-run bookkeeping is reset by optimize() itself, whatever hooks the optimizer overrides)
         jobs.append({"opt": nm, "cfg": {"max_cycles": mc, "fitness_error": None}, "sequence": [{"task": search.cont_task(obj="rastrigin", seed=r.randint(0, 10**6))}],
                      "task": search.cont_task(obj="sphere", seed=r.randint(0, 10**6))})
+    # an earlier call on the instance that was ABORTED by the objective part-way through a cycle: the next run's bookkeeping starts from scratch all the same
+    for nm in names[:max(6, n_opt // 3)]:
+        P0 = search.fixture_scale(nm)["population_size"]
+        ab = dict(search.cont_task(obj="sphere", seed=r.randint(0, 99)), raise_at=P0 + r.randint(2, 3 * P0))
+        jobs.append({"opt": nm, "cfg": {"max_cycles": r.choice([3, 6]), "fitness_error": None, "early_stopping": r.choice([None, {"patience": 2, "min_delta": 0.05}])},
+                     "sequence": [{"task": ab}], "task": search.cont_task(obj="sphere", seed=r.randint(0, 10**6))})
     obs = search.run_jobs(jobs)
     n_ok = 0
     for o in obs:
         if not o["ok"]:
             continue                       # a crash is C06's business
         n_ok += 1
-        j = o["job"]; mc = j["cfg"]["max_cycles"]; fe = j["cfg"]["fitness_error"]
-        K = len(o["rates"])
-        probs = []
-        if not (1 <= K <= mc): probs.append(f"{K} cycles with max_cycles={mc}")
-        if len(o["evolution"]) != K + 1: probs.append(f"{len(o['evolution'])} generations for {K} rates")
-        for k in range(1, min(K, len(o["evolution"]) - 1) + 1):
-            fits = [a[2] for a in o["evolution"][k]]
-            want = abs(1 - float(np.average(fits)))
-            if o["rates"][k - 1] != want and not (math.isnan(want) and math.isnan(o["rates"][k - 1])):
-                probs.append(f"rate {k} = {o['rates'][k-1]!r} but |1 - mean fitness| = {want!r}")
-        crit = [(k >= mc) or (fe is not None and o["rates"][k - 1] <= fe) for k in range(1, K + 1)]
-        if K and (not crit[-1] or any(crit[:-1])):
-            probs.append(f"stop rule: criteria per cycle {crit}")
-        for p in probs:
+        j = o["job"]
+        for p in stop_problems(o):
             ctx.violation(f"real-optimizer:{p.split('=')[0][:40]}", f"{j['opt']}: {p}", {"kind": "job", "job": j})
     return len(jobs), n_ok
 
@@ -72,6 +91,8 @@ def run(ctx, info):
         ctx.broke(f"correspondence:Loop.run vs real optimize() on {json.dumps(metas[i])[:500]}", "model and implementation differ")
     ctx.coverage["correspondence"] = {"cases": res["n"], "disagreements": len(res["bad"]), "files": res["files"]}
     n_jobs, n_ok = real_optimizer_pass(ctx, 28 if ctx.quick else 84)
+    from .. import edgesuite
+    edgesuite.run(ctx, "stop")
     ctx.coverage["real_optimizer_runs"] = {"jobs": n_jobs, "completed": n_ok}
     ctx.coverage["evaluations"] += n_jobs
 
